@@ -374,7 +374,9 @@ def judge(spec, rec, histfiles):
                     if out[0] == "ok" else None)
     # files that existed before the runs started must be unchanged
     for name, text in histfiles.items():
-        if files.get(name) != text or any(name in m for m in mutated.values()):
+        # 'multiple': "no other run overwrites" -> not even with equal content
+        if files.get(name) != text or (scheme == "multiple" and any(
+                name in m for m in mutated.values())):
             add(f"{scheme}:preexisting-file-modified",
                 f"{name} existed before the runs (left by the earlier runs "
                 f"{spec['hist']}) and was changed: now "
@@ -384,8 +386,8 @@ def judge(spec, rec, histfiles):
         for path in paths:
             writers.setdefault(path, set()).add(tid)
     for path, tids in sorted(writers.items()):
-        if len(tids) > 1:
-            add(f"{scheme}:file-written-by-several-runs",
+        if len(tids) > 1 and scheme == "multiple":
+            add("multiple:file-written-by-several-runs",
                 f"{path} was written by runs {sorted(tids)}")
 
     if scheme == "multiple":
